@@ -90,6 +90,7 @@ type histOpts struct {
 	expiry           bool
 	race             bool
 	storm            bool // expiry storm: every client alternates SET EX 1ms / SET without EX on private ids
+	mass             bool // mass expiry: massN objects per client with one deadline, then PERSISTs around it
 	caseNo           int
 }
 
@@ -101,6 +102,8 @@ type history struct {
 	stderr       string
 	crashed      string
 }
+
+const massN = 1500
 
 var tokRe = regexp.MustCompile(`^T(\d+)x(\d+)$`)
 
@@ -266,6 +269,20 @@ func runHistory(ctx *core.Ctx, bin string, o histOpts) (*history, error) {
 			c.Timeout = 30 * time.Second
 			for i := 0; i < o.opsPerClient; i++ {
 				cmd, tok := nextCmd(g, ci, writer, i, o.expiry)
+				if o.mass {
+					if i < massN {
+						tok = fmt.Sprintf("T%dx%d", ci, i)
+						cmd = []string{"SET", "xp", fmt.Sprintf("m%d_%d", ci, i), "FIELD", "tok", tok, "EX", "0.7", "POINT", "1", "1"}
+					} else {
+						if i == massN {
+							if d := 680*time.Millisecond - time.Since(start); d > 0 {
+								time.Sleep(d)
+							}
+						}
+						tok = ""
+						cmd = []string{casing("PERSIST", ci), "xp", fmt.Sprintf("m%d_%d", r.Intn(o.writers), r.Intn(massN))}
+					}
+				}
 				if o.storm {
 					tok = fmt.Sprintf("T%dx%d", ci, i)
 					id := fmt.Sprintf("s%d_%d", ci, (i/2)%40)
@@ -793,7 +810,7 @@ func classifyRace(block string) raceClass {
 
 // Run is the C07 check.
 func Run(ctx *core.Ctx) {
-	ctx.Rule = "histories recorded at the client boundary (call time before the first byte is sent, return time after the reply is read, one monotonic clock) with 2-8 writer clients (all write commands; tokenless ones identified in the log by a per-client casing of the command word) and 0-24 token-writer/reader clients on 3 collections x 4 ids, optional live fences and background expiry, both lock variants, GOMAXPROCS 2/4/16. Long histories: the log-order checker matches every log entry to the operation that caused it, replays the log through the sequential model (each write's reply must equal the model's at its log position), checks that the log order never contradicts real time, and places every read / no-op write at a log position inside its real-time window with cross-client monotonicity. Short histories: porcupine linearizability check with the same model (independent of the log). Race build: the same workload under the Go race detector (halt_on_error=0), reports classified by whether they touch lock-guarded state; plus one run of script traffic (every script-callable write through EVAL and EVALNA, reads through EVALRO/EVALNA, against plain readers of the same collection) judged by the race detector only. non-trivial = history with >= 1 pair of overlapping operations of different clients on the same collection; distinct key = set of overlapping command-kind pairs (bucketed) x configuration"
+	ctx.Rule = "histories recorded at the client boundary (call time before the first byte is sent, return time after the reply is read, one monotonic clock) with 2-8 writer clients (all write commands; tokenless ones identified in the log by a per-client casing of the command word) and 0-24 token-writer/reader clients on 3 collections x 4 ids, optional live fences and background expiry, both lock variants, GOMAXPROCS 2/4/16. Long histories: the log-order checker matches every log entry to the operation that caused it, replays the log through the sequential model (each write's reply must equal the model's at its log position), checks that the log order never contradicts real time, and places every read / no-op write at a log position inside its real-time window with cross-client monotonicity. Short histories: porcupine linearizability check with the same model (independent of the log). Mass expiry: 12000 objects reach one deadline while eight clients PERSIST them (an acknowledged PERSIST must not be followed by the sweeper's DEL). Race build: the same workload under the Go race detector (halt_on_error=0), reports classified by whether they touch lock-guarded state; plus one run of script traffic (every script-callable write through EVAL and EVALNA, reads through EVALRO/EVALNA, against eight plain readers of the same collection: SCAN, NEARBY, WITHIN, GET, TTL, BOUNDS, STATS, KEYS) judged by the race detector only. non-trivial = history with >= 1 pair of overlapping operations of different clients on the same collection; distinct key = set of overlapping command-kind pairs (bucketed) x configuration"
 	ctx.Assumptions = []string{"the sequential model kmodel is the specification of single-command behaviour (C01 decides that)", "client clocks: one monotonic clock in the harness process"}
 	bin, err := srv.Build("plain")
 	if err != nil {
@@ -896,6 +913,59 @@ func Run(ctx *core.Ctx) {
 			}
 			if local["sweeper_entries"] > 0 {
 				ctx.Distinct(fmt.Sprintf("storm|%d", i))
+			}
+		}(i)
+	}
+	wg.Wait()
+	// ---- mass expiry: thousands of objects reach one deadline while clients PERSIST them
+	for i := 0; i < ctx.Pick(2, 12); i++ {
+		wg.Add(1)
+		sem <- struct{}{}
+		go func(i int) {
+			defer wg.Done()
+			defer func() { <-sem }()
+			o := histOpts{writers: 8, readers: 0, opsPerClient: massN + ctx.Pick(1500, 2500), spinlock: i%2 == 1, gomaxprocs: 16, expiry: true, mass: true, caseNo: 31000 + i}
+			h, err := runHistory(ctx, bin, o)
+			if err != nil {
+				ctx.Inconclusive("mass expiry history: " + err.Error())
+				return
+			}
+			if h.crashed != "" {
+				ctx.Violation("runtime-fatal:"+h.crashed, "server died during the mass expiry: "+h.crashed, map[string]any{"stderr": h.stderr})
+				return
+			}
+			ctx.Eval(1)
+			// the log alone decides here (the general checker keeps model snapshots, too costly
+			// for 12000 objects): only the sweeper issues DEL in this workload, PERSIST is logged
+			// only when it removed a deadline, and no client sets an object again
+			persisted := map[string]int{}
+			sweeps, persists := int64(0), int64(0)
+			for pos, en := range h.entries {
+				if len(en.Args) < 3 {
+					continue
+				}
+				switch strings.ToLower(en.Args[0]) {
+				case "set":
+					delete(persisted, en.Args[2])
+				case "persist":
+					persisted[en.Args[2]] = pos
+					persists++
+				case "del":
+					sweeps++
+					if at, ok := persisted[en.Args[2]]; ok {
+						ctx.Violation("sweeper-deletes-object-without-deadline", fmt.Sprintf("log position %d: the expiry sweeper logged %q although the PERSIST of that object is at log position %d (acknowledged, the deadline was removed) [mass expiry]", pos, en.Args, at),
+							map[string]any{"persist_entry": h.entries[at].Args, "persist_log_position": at, "del_log_position": pos})
+						return
+					}
+				}
+			}
+			smu.Lock()
+			stats["mass_expiry_ops"] += int64(len(h.ops))
+			stats["mass_expiry_sweeper_entries"] += sweeps
+			stats["mass_expiry_persists_logged"] += persists
+			smu.Unlock()
+			if sweeps > 0 && persists > 0 {
+				ctx.Distinct(fmt.Sprintf("mass-expiry|%d", i))
 			}
 		}(i)
 	}
@@ -1069,7 +1139,7 @@ func raceScripts(ctx *core.Ctx, bin string, seen map[string]int, stats map[strin
 			}
 		}(w)
 	}
-	for rd := 0; rd < 4; rd++ {
+	for rd := 0; rd < 8; rd++ {
 		wg.Add(1)
 		go func(rd int) {
 			defer wg.Done()
@@ -1082,7 +1152,13 @@ func raceScripts(ctx *core.Ctx, bin string, seen map[string]int, stats map[strin
 			c.Timeout = 30 * time.Second
 			for i := 0; i < n; i++ {
 				id := ids[r.Intn(len(ids))]
-				switch r.Intn(6) {
+				switch r.Intn(10) {
+				case 6, 7:
+					c.Do("BOUNDS", "scr")
+				case 8:
+					c.Do("STATS", "scr")
+				case 9:
+					c.Do("KEYS", "*")
 				case 0:
 					c.Do("SCAN", "scr")
 				case 1:
@@ -1102,7 +1178,7 @@ func raceScripts(ctx *core.Ctx, bin string, seen map[string]int, stats map[strin
 	wg.Wait()
 	ctx.Eval(1)
 	stats["race_script_runs"]++
-	stats["race_script_ops"] += int64(8 * n)
+	stats["race_script_ops"] += int64(12 * n)
 	if !s.Alive() {
 		_, site := s.Crashed()
 		ctx.Violation("runtime-fatal:"+site, "race build: server died under script traffic: "+site, map[string]any{"stderr": s.StderrTail(6000)})
